@@ -44,9 +44,11 @@ pub async fn main() -> anyhow::Result<()> {
 async fn startup(config: ServerConfig<SslConfig>) {
     match config.protocol {
         Protocol::Shadowsocks => shadowsocks::startup(&config).await,
-        Protocol::VMess => {
-            merge_result(tokio::join!(startup_quic(&config, &config, vmess::new_codec), startup_tcp(&config, &config, vmess::new_codec)))
-        }
+        Protocol::VMess => match vmess::new_codec(&config) {
+            // a user id that is not a UUID is a configuration error: it stops startup instead of failing every connection
+            Err(e) => Err(e),
+            Ok(_) => merge_result(tokio::join!(startup_quic(&config, &config, vmess::new_codec), startup_tcp(&config, &config, vmess::new_codec))),
+        },
         Protocol::Trojan => {
             merge_result(tokio::join!(startup_quic(&config, &config, trojan::new_codec), startup_tcp(&config, &config, trojan::new_codec)))
         }
